@@ -580,6 +580,17 @@ def make_ty_interp(ctx, fc=None):
                     return self.inline(f, args, recv=recv)
             if isinstance(recv, list) and m in ("iter", "into_iter"):
                 return recv
+            # Cranelift's own rule for the instruction stream: after a terminator (jump / brif / return / trap) the current block is filled and takes no
+            # further instruction until the builder is switched to another block (FunctionBuilder panics otherwise)
+            if isinstance(recv, Term) and recv.op == "ins":
+                if getattr(self, "filled", False):
+                    raise Panic("`%s` is added to a block that already ends in a jump (cranelift: you cannot add an instruction to a block already filled)" % m)
+                if m in ("jump", "brif", "return_", "trap", "br_table"):
+                    self.filled = True
+                return Term(m)
+            if isinstance(recv, Term) and recv.op == "builder" and m == "switch_to_block":
+                self.filled = False
+                return None
             if recv is None or isinstance(recv, (Term, Obj)):
                 return Term(m)
             return super().default_method(recv, m, args, e)
@@ -642,6 +653,8 @@ def r07i(ctx, run):
         "str!%s": lambda k: V("Ty::ErrorUnion", {"error_ty": st, "payload_ty": k}),
         "struct{a: i32, b: %s}": lambda k: V("Ty::ConcreteStruct", {"uid": 7, "members": [mem("a", i32), mem("b", k)]}),
         "struct{b: %s, a: i32}": lambda k: V("Ty::ConcreteStruct", {"uid": 8, "members": [mem("b", k), mem("a", i32)]}),
+        "struct{z: %s, a: i32, b: i32}": lambda k: V("Ty::ConcreteStruct", {"uid": 11, "members": [mem("z", k), mem("a", i32), mem("b", i32)]}),
+        "struct{a: i32, z: %s, b: i32}": lambda k: V("Ty::ConcreteStruct", {"uid": 12, "members": [mem("a", i32), mem("z", k), mem("b", i32)]}),
         "enum{A: %s}": lambda k: V("Ty::Enum", {"uid": 9, "variants": [V("Ty::EnumVariant", {"enum_uid": 9, "variant_name": Term("A"), "uid": 10, "sub_ty": k, "discriminant": 0})]}),
     }
     cc = fc["compile_complex_compare"]
